@@ -233,7 +233,7 @@ def nt_c05(payload, impl, model):
 PROPS["C05"] = dict(
     coq="Properties_C05",
     level_text="Proved in Coq for all byte strings: the decoder automaton model returns exactly what the recursive-descent reference reading of RFC 8259 (with the one trailing-comma leniency) returns - same tokens and rest, or an error - and never runs out of fuel. The reference reading itself is validated on every run against Go's encoding/json (validity with/without the leniency, and token-by-token value agreement incl. numbers) on all generated texts. Tied to json.Decoder by the correspondence run (all strings <= 5 quick / 7 thorough over a 24-symbol alphabet as a pruned prefix tree, all \\\\uXXXX, generated documents with edits and prefixes).",
-    level_note="Trusted: Coq kernel, extraction, OCaml driver, Go harness, encoding/json and strconv as validators of the spec; the decimal->float64 conversion (JsonFloat.nearest) is an executable stand-in for strconv.ParseFloat validated by correspondence, not proved against IEEE-754. No axioms.",
+    level_note="Trusted: Coq kernel, extraction, OCaml driver, Go harness, encoding/json and strconv as validators of the spec. The decimal->float64 conversion (JsonFloat.nearest) is proved to be the correctly rounded IEEE-754 binary64 value (FloatProof.v: nearest among all finite patterns, ties to even, overflow from 2^1024-2^970) — it is no longer an unproved stand-in for strconv.ParseFloat; that strconv computes the same is what the correspondence run checks. No axioms.",
     rule="texts generated as described per suite; non-trivial = at least 3 bytes; distinct by payload",
     trusted_base=TB_COMMON + ["encoding/json (Valid, Decoder.Token with UseNumber) and strconv as independent oracles inside the harness"],
     assumptions=["acceptance of a text = one item decoded and only whitespace left (stream decoder)", "valid JSON numbers outside int64/uint64/float64 range are exempt (unrep=1): the decoder reports an error for them"],
